@@ -83,6 +83,31 @@ func (r *recorder) quiesce() {
 	}
 }
 
+// settle waits until the handler of an abandoned stream has come to rest: no new call for
+// 15 ms, and no successful debit still waiting for its sector call (that one gets 300 ms).
+func (r *recorder) settle() {
+	last, since := -1, time.Now()
+	for end := time.Now().Add(2 * time.Second); time.Now().Before(end); time.Sleep(time.Millisecond) {
+		r.mu.Lock()
+		n, pending := len(r.calls), false
+		for i := n - 1; i >= 0; i-- {
+			if c := r.calls[i]; c.Kind == "read" || c.Kind == "store" {
+				break
+			} else if c.Kind == "debit" && c.Err == nil {
+				pending = true
+				break
+			}
+		}
+		r.mu.Unlock()
+		if n != last {
+			last, since = n, time.Now()
+		}
+		if idle := time.Since(since); !pending && idle > 15*time.Millisecond || idle > 300*time.Millisecond {
+			return
+		}
+	}
+}
+
 type recContractor struct {
 	rhp4.Contractor
 	rec *recorder
